@@ -30,6 +30,9 @@ func lexAll(s string) ([]tok, bool) {
 			for j < len(s) && isIDByte(s[j]) {
 				j++
 			}
+			if !wellFormedID(s[i:j]) {
+				return nil, false // "a:b", "1a", "a#b", a lone "#" or ":" are no names, placeholders or list positions
+			}
 			toks = append(toks, tok{"id", s[i:j]})
 			i = j
 		case c == '<':
@@ -57,6 +60,28 @@ func lexAll(s string) ([]tok, bool) {
 	}
 	toks = append(toks, tok{"eof", ""})
 	return toks, true
+}
+
+// wellFormedID: an attribute name (letter or underscore first, then letters, digits, underscores), a #name or :value
+// placeholder (the sign, then at least one letter, digit or underscore) or digits alone (a list position; the
+// liberal grammar also lets them stand as operands, which the library's own tests rely on).
+func wellFormedID(id string) bool {
+	rest := id
+	switch {
+	case id[0] == '#' || id[0] == ':':
+		rest = id[1:]
+		if rest == "" {
+			return false
+		}
+	case id[0] >= '0' && id[0] <= '9':
+		for i := 0; i < len(id); i++ {
+			if id[i] < '0' || id[i] > '9' {
+				return false
+			}
+		}
+		return true
+	}
+	return !strings.ContainsAny(rest, "#:")
 }
 
 func isIDByte(c byte) bool {
@@ -494,6 +519,7 @@ func RecognizeUpdate(s string) (sentence bool, strict bool) {
 	}
 	r := &recog{t: toks, astOK: true, strict: true, update: true}
 	clauses := 0
+	seen := map[string]bool{}
 	for r.peek().kind != "eof" {
 		var kind string
 		for _, k := range []string{"SET", "REMOVE", "ADD", "DELETE"} {
@@ -505,6 +531,10 @@ func RecognizeUpdate(s string) (sentence bool, strict bool) {
 		if kind == "" {
 			return false, false
 		}
+		if seen[kind] {
+			return false, false // every section (SET, REMOVE, ADD, DELETE) can be used once
+		}
+		seen[kind] = true
 		clauses++
 		for {
 			if !r.pathOnly() {
